@@ -709,38 +709,54 @@ func judgeTree(r *mon.Run, st *twinStats, t *Node, label string) (nontrivial boo
 func reportTwin(r *mon.Run, st *twinStats, t *Node, pr *pairResult) {
 	r.Count("twin_differences", 1)
 	which, d := pr.verdict()
-	// attribute to an already minimised signature when removing its culprit ops heals the case
+	wit := func(cur *Node, w string, dd diff) twinWitness {
+		return twinWitness{Oracle: "twin", EntryAll: entryAll, Tree: t, Class: w + ":" + dd.Class, InA: dd.A, InB: dd.B, Shape: cur.shape(true)}
+	}
+	// A case may combine several causes. Peel off the causes already minimised
+	// earlier: removing the culprit ops of a known signature changes (or heals)
+	// the difference => the case is one more witness of that signature.
 	var sigs []string
 	for sig := range st.seenSigs {
 		sigs = append(sigs, sig)
 	}
 	sort.Strings(sigs)
-	for _, sig := range sigs {
-		culprits := st.seenSigs[sig]
-		h := removeLeafOps(t, culprits)
-		healed := false
-		if _, dead := pruneTree(h); len(dead) == 0 {
-			healed = true
-		} else if w, _ := comparePair(h).verdict(); w == "" {
-			healed = true
-		}
-		if healed {
-			r.Violation(sig, "same minimal cause as an earlier witness", twinWitness{Oracle: "twin", EntryAll: entryAll, Tree: t, Class: which + ":" + d.Class, InA: d.A, InB: d.B, Shape: t.shape(true)})
-			return
+	cur := t
+	for pass := 0; pass < 2; pass++ {
+		for _, sig := range sigs {
+			h := removeLeafOps(cur, st.seenSigs[sig])
+			if h.countItems() == cur.countItems() {
+				continue
+			}
+			hw, hd := "", diff{}
+			if _, dead := pruneTree(h); len(dead) > 0 {
+				hw, hd = comparePair(h).verdict()
+			}
+			if hw == which && hd.Class == d.Class && hd.A == d.A && hd.B == d.B {
+				continue // no influence on the difference
+			}
+			r.Violation(sig, "same minimal cause as an earlier witness", wit(t, which, d))
+			cur, which, d = h, hw, hd
+			if which == "" {
+				return
+			}
 		}
 	}
-	min := t
-	if st.shrinks < 60 {
-		st.shrinks++
-		min = shrink(t, which, d.Class, 400)
+	min := cur
+	if st.shrinks >= 3000 { // safety valve; keeps the signature stable
+		r.Violation(fmt.Sprintf("C12:%s:%s:not-minimised", which, classGroup(d.Class)), "difference between twins (not minimised: budget exhausted)", wit(cur, which, d))
+		return
 	}
+	st.shrinks++
+	r.Count("twin_shrinks", 1)
+	min = shrink(cur, which, d.Class, 600)
 	mp := comparePair(min)
 	mw, md := mp.verdict()
-	if mw == "" { // cannot happen (shrink keeps the class); fall back to the original
-		min, mp, mw, md = t, pr, which, d
+	if mw == "" { // cannot happen (shrink keeps the class); fall back
+		min, mp = cur, comparePair(cur)
+		mw, md = mp.verdict()
 	}
 	sig := twinSignature(min, mp)
-	st.seenSigs[sig] = leafOps(min)
+	st.seenSigs[sig] = unionStrings(st.seenSigs[sig], leafOps(min))
 	var what string
 	if mw == "twin" {
 		what = fmt.Sprintf("program A and its twin B (dead frame bodies skipped) end differently [%s]: A: %s | B: %s | minimal program %s",
@@ -749,7 +765,25 @@ func reportTwin(r *mon.Run, st *twinStats, t *Node, pr *pairResult) {
 		what = fmt.Sprintf("twin B (dead frame entered, fails at once) and twin B0 (dead frame not entered at all) end differently [%s]: B: %s | B0: %s | minimal program %s",
 			md.Class, md.A, md.B, min.shape(true))
 	}
-	r.Violation(sig, what, twinWitness{Oracle: "twin", EntryAll: entryAll, Tree: t, Minimal: min, Class: mw + ":" + md.Class, InA: md.A, InB: md.B, Shape: min.shape(true)})
+	w := wit(min, mw, md)
+	w.Minimal = min
+	r.Violation(sig, what, w)
+}
+
+func unionStrings(a, b []string) []string {
+	m := map[string]bool{}
+	for _, x := range a {
+		m[x] = true
+	}
+	for _, x := range b {
+		m[x] = true
+	}
+	var out []string
+	for x := range m {
+		out = append(out, x)
+	}
+	sort.Strings(out)
+	return out
 }
 
 // twinSignature: C12:<twin|static>:<class group>:<dead frame kind/mode>:<culprit ops> of the minimal program.
